@@ -94,7 +94,7 @@ CHECKS = {
               "Deductive (all lengths): stack_sort, pop_stack_sort, bubble_sort and their recursive helpers are proved equal to a non-recursive description of one pass of "
               "the device (stack discipline as a pairwise order condition with ghost position maps; reversal of the maximal decreasing runs; min(prefix maximum, next entry)), "
               "each with an explicit inverse witness for 'the result is a permutation'; the sortable predicates are 'the operator's output (k passes) is the identity'; _is_sorted. "
-              "quick_sort under an ASSUMED contract.  Bounded: sorting operators vs explicit device simulations (all perms <=7/8, seeded 9-14, block-structured 9-20), pattern "
+              "quick_sort under an ASSUMED contract.  Partial correctness: termination is not verified - the three recursive operators exceed CPython's recursion limit near length 1000 (known findings C12-recursion-*).  Bounded: sorting operators vs explicit device simulations (all perms <=7/8, seeded 9-14, block-structured 9-20), pattern "
               "characterisations, pass counts (also > 1000 passes), Simion-Schmidt bijection on full domains up to n=8/9, families.",
               _BNOTE + "; Skolem spec functions RUN-DECOMPOSITION / PREFIX-ARGMAX / NEXT-GREATER; partial correctness of the recursive helpers",
               "deductive contracts (pyvc/z3) for three sorting operators + bounded run-time contracts vs device simulations"),
